@@ -367,6 +367,9 @@ func (in *Interp) exec(st *State, s ast.Stmt) (*State, bool) {
 						t := in.info.TypeOf(l)
 						if t != nil && isErrorType(t) {
 							in.assign(st, l, ObjV{Path: "err:" + in.render(st, x.Rhs[0]), Type: t}, x.Tok, nil)
+						} else if ix, isIx := unparen(x.Rhs[0]).(*ast.IndexExpr); isIx && isMapType(in.info.TypeOf(ix.X)) && t != nil && isBoolType(t) {
+							// v, ok := table[code]: ok says whether the table has an entry for the code
+							in.assign(st, l, BoolV{"haskey(" + in.render(st, ix.X) + "," + in.operand(st, ix.Index) + ")"}, x.Tok, nil)
 						} else {
 							in.assign(st, l, UnkV{"ok"}, x.Tok, nil)
 						}
@@ -2594,4 +2597,12 @@ func (in *Interp) constTrueFlag(cond ast.Expr) bool {
 		return true
 	})
 	return ok2 && n > 0
+}
+
+func isMapType(t types.Type) bool {
+	if t == nil {
+		return false
+	}
+	_, ok := t.Underlying().(*types.Map)
+	return ok
 }
